@@ -28,6 +28,7 @@ func c01(c *Ctx) {
 	defer c01announceInOrder(c)
 	defer c01expungeIsBarrier(c)
 	defer c01idleStartsEmpty(c)
+	defer c01queueClearedOnSwitch(c)
 	P, R := c.P, c.R
 	R.Explain("R01.1", "T-WRITERS: the snapshot's message list (snapMsgList.msg/idx, snapMsg.ID/UID/flags/toExpunge) is written only by newMsgList, snapMsgList.insert/insertOutOfOrder/remove/update and snapshot.setMessageFlags; in-place FlagSet mutators on a snapshot's flags occur only in Mailbox.Fetch's \\Seen branch, where the same iteration appends ItemFlags(msg.flags) to the FETCH it sends; the snapshot-level mutators are called only from the three responders' handle methods and State.UpdateMessageRemoteID; State.snap is assigned only by Select/Examine/close/NewState.")
 	R.Explain("R01.2", "T-MUST inside each Responder.handle: every nil-error return that follows a snapshot mutation returns a non-empty response built by the matching constructor (Exists/Expunge/Fetch) unless it is on the true edge of an enumerated silencer (contexts.IsClose, fetch.asSilent, FlagSet.Equals).")
@@ -796,4 +797,90 @@ func (c *Ctx) idleArmedAfterFullFlush(rule string) {
 		}
 	}
 	R.Min(rule, "stores arming State.idleCh", n, 1)
+}
+
+// c01queueClearedOnSwitch (R01.10): responders queued for the old mailbox never meet the new snapshot.
+func c01queueClearedOnSwitch(c *Ctx) {
+	P, R := c.P, c.R
+	R.Explain("R01.10", "a new snapshot starts with an empty queue: every path to a store that installs a new snapshot in State.snap passes, after the last point at which the old snapshot could still be set, a reset of the responder queue (a store of nil/empty to State.res, directly or through State.close) - or comes along the edge on which State.snap was nil.  EXISTS / EXPUNGE / FETCH responders still queued for the previous mailbox would otherwise be replayed against the new mailbox's snapshot at the next flush: phantom messages, bogus EXPUNGEs, shifted sequence numbers.")
+	snapFld := c.fieldOf("internal/state", "State", "snap")
+	resFld := c.fieldOf("internal/state", "State", "res")
+	n := 0
+	for _, f := range c.funcsInPkg("internal/state") {
+		if f.Parent() != nil {
+			continue
+		}
+		for _, b := range f.Blocks {
+			for _, in := range b.Instrs {
+				st, ok := in.(*ssa.Store)
+				if !ok || !fieldAddrIs(st.Addr, snapFld) || engine.IsNilConst(st.Val) {
+					continue
+				}
+				if c.isAnchor(f, "internal/state.NewState") {
+					continue
+				}
+				n++
+				// resets: direct nil stores to res, or calls that must reset it (close)
+				cut := c.mustCallInstrs(f, func(cc *ssa.CallCommon) bool {
+					sc := cc.StaticCallee()
+					if sc == nil || len(sc.Blocks) == 0 {
+						return false
+					}
+					// a function every return of which is preceded by a nil store to State.res
+					rc := map[ssa.Instruction]bool{}
+					for _, bb := range sc.Blocks {
+						for _, i2 := range bb.Instrs {
+							if s2, ok := i2.(*ssa.Store); ok && fieldAddrIs(s2.Addr, resFld) && engine.IsNilConst(s2.Val) {
+								rc[s2] = true
+							}
+						}
+					}
+					if len(rc) == 0 {
+						return false
+					}
+					for _, r := range engine.Returns(sc) {
+						if engine.ReachesAvoiding(sc, r, rc, nil) {
+							return false
+						}
+					}
+					return true
+				}, 1)
+				for _, bb := range f.Blocks {
+					for _, i2 := range bb.Instrs {
+						if s2, ok := i2.(*ssa.Store); ok && fieldAddrIs(s2.Addr, resFld) && engine.IsNilConst(s2.Val) {
+							cut[s2] = true
+						}
+					}
+				}
+				// the snapshot was nil: nothing can be queued for it
+				skip := map[engine.Edge]bool{}
+				for _, bb := range f.Blocks {
+					iff := engine.IfOf(bb)
+					if iff == nil {
+						continue
+					}
+					bin, ok := iff.Cond.(*ssa.BinOp)
+					if !ok || (bin.Op != token.EQL && bin.Op != token.NEQ) {
+						continue
+					}
+					var other ssa.Value
+					if engine.IsNilConst(bin.Y) {
+						other = bin.X
+					} else if engine.IsNilConst(bin.X) {
+						other = bin.Y
+					}
+					if ld, ok := other.(*ssa.UnOp); ok && fieldAddrIs(ld.X, snapFld) {
+						nilIx := 0
+						if bin.Op == token.NEQ {
+							nilIx = 1
+						}
+						skip[engine.Edge{From: bb, Succ: nilIx}] = true
+					}
+				}
+				bad := engine.ReachesAvoidingFrom(f.Blocks[0], 0, st, cut, skip)
+				R.Check(!bad, "R01.10", c.name(c.ownerFn(f))+"|queue reset before new snapshot", P.Pos(st.Pos()), "State.res is reset (or State.snap was nil) on every path", "a new snapshot is installed on a path that neither resets State.res nor comes from State.snap == nil: responders queued for the previous mailbox are applied to the new one")
+			}
+		}
+	}
+	R.Min("R01.10", "snapshot installations", n, 2)
 }
